@@ -90,8 +90,10 @@ IsoEncLoop(st, c) ==
         a1 == atoms[1]
     IN  IF a1.k = "u" THEN ERet(st, "U", a1.v[1], EAdv(c))
         ELSE IF a1.k = "b" THEN IsoEncLoop(st, EWr(EAdv(c), a1.v))
-        ELSE IF Len(atoms) >= 2 /\ atoms[2].k = "u"
-          THEN ERet("ascii", "U", atoms[2].v[1], EWr(EAdv(c), a1.v))     \* write_three_return_written + Unmappable
+        ELSE IF Len(atoms) >= 2 /\ atoms[2].k = "u" /\ cp >= 128
+          \* unmappable non-ASCII character met in the jis0208 state: write_three_return_written + Unmappable in one step
+          \* (an ASCII-range character - also 0x0E/0x0F/0x1B - takes the escape-and-unread path below instead)
+          THEN ERet("ascii", "U", atoms[2].v[1], EWr(EAdv(c), a1.v))
           ELSE IsoEncLoop(StateOfEsc(a1.v), EWr(c, a1.v))                  \* escape written, character un-read
 
 (***************************************************************************)
